@@ -46,7 +46,12 @@ LEVEL_TEXT = (
     "get_wsgi_headers come from iri_to_uri (or urljoin of such) under no other condition than presence; (R5.6) every "
     "return of get_app_iter chains Response.close through ClosingIterator, which runs every callback and the wrapped "
     "iterable's own close; Response.close closes the body and runs every registered callback; make_sequence moves the "
-    "consumed iterable's close into the callbacks; (R5.7) _clean_status returns (str, int) on every path and is the only "
+    "consumed iterable's close into the callbacks; the wrapped iterable's close is reached at most once per path: for every "
+    "ClosingIterator that get_app_iter returns, the closes it carries (self.close / the body's close among its callbacks, "
+    "plus the own close ClosingIterator adds when the wrapped iterable is self.response itself) and the closes get_app_iter "
+    "has already called on a path to that return (self.response.close() directly, through getattr or a local, self.close(), "
+    "or a package helper that reaches one of these - followed through the call graph; a replaced self.response starts "
+    "afresh) add up to at most one, and Response.close itself passes at most one such call per path; (R5.7) _clean_status returns (str, int) on every path and is the only "
     "source of the stored status. It decides these clauses on all paths of the named functions, comparing structure by role "
     "rather than by spelling: branch conditions are evaluated over every status x method (so flipped, split, merged or "
     "hoisted conditions, conditional expressions, module-level constants and HTTPStatus members read the same), locals "
@@ -54,7 +59,7 @@ LEVEL_TEXT = (
     "return the value, helpers that decide the condition, helpers that perform the store; a private helper's parameter "
     "is judged by what every caller passes). It does not decide that "
     "iri_to_uri emits only ASCII, that _RangeWrapper yields exactly the announced number of bytes, nor exception paths "
-    "inside close callbacks."
+    "inside close callbacks, nor that a user does not register the same callback (or the body's close) twice with call_on_close."
 )
 TRUSTED = [
     "CPython ast and re._parser",
@@ -96,7 +101,7 @@ def run(ctx: Ctx) -> None:
         "R5.3": "for every status 100..599 x GET/HEAD/POST: body empty <=> HEAD or 1xx or 204 or 304; Content-Length removed on every path for 1xx/204; no Content-Length computed for 1xx/204/304",
         "R5.4": "every Content-Length stored by the Response classes is a length measured over encoded bytes, and the body handed to the server is the measured encoded stream",
         "R5.5": "Location / Content-Location stored by get_wsgi_headers have provenance iri_to_uri (or urljoin of such) and are stored whenever the header is present",
-        "R5.6": "every return of get_app_iter is ClosingIterator(<iterable>, self.close); ClosingIterator runs every callback and the iterable's own close; Response.close closes the body and runs every _on_close entry; make_sequence keeps the consumed iterable's close",
+        "R5.6": "every return of get_app_iter is ClosingIterator(<iterable>, self.close); ClosingIterator runs every callback and the iterable's own close; Response.close closes the body and runs every _on_close entry; make_sequence keeps the consumed iterable's close; on no path is the wrapped iterable's close reached twice (called directly by get_app_iter while the returned iterator also carries self.close, carried twice, or called twice by Response.close)",
         "R5.7": "_clean_status returns (str, int) on every path, int-like statuses go through int(); the stored status comes only from _clean_status",
     }.items():
         ctx.rule(rid, text)
@@ -2212,21 +2217,25 @@ def _unconditional_helpers(F: Fn) -> list[tuple[Fn, dict[str, str]]]:
     return out
 
 
+def _body_close_ref(Fr: Fn, at_, x: ast.AST | None, depth: int = 0) -> bool:
+    """x is the close attribute of self.response (read directly, through getattr, or through a local holding it)."""
+    if isinstance(x, ast.NamedExpr):
+        x = x.value
+    if isinstance(x, ast.Attribute) and x.attr == "close" and _self_attr_alias(Fr, at_, x.value) == "response":
+        return True
+    if isinstance(x, ast.Call) and isinstance(x.func, ast.Name) and x.func.id == "getattr" and len(x.args) >= 2 and _self_attr_alias(Fr, at_, x.args[0]) == "response" and astq.const_str(x.args[1]) == "close":
+        return True
+    if isinstance(x, ast.Name) and depth < 4:
+        bs = bindings(Fr, at_, x)
+        return bool(bs) and all(b.kind == "value" and b.path == () and b.node is not None and _body_close_ref(Fr, b.node, b.expr, depth + 1) for b in bs)
+    return False
+
+
 def _closes_body(Fr: Fn) -> tuple[bool, str, ast.AST | None]:
     """every normal path of the function calls the close of self.response, unless the body has none."""
 
     def body_close(at_, x: ast.AST | None, depth: int = 0) -> bool:
-        """x is the close attribute of self.response (read directly, through getattr, or through a local holding it)."""
-        if isinstance(x, ast.NamedExpr):
-            x = x.value
-        if isinstance(x, ast.Attribute) and x.attr == "close" and _self_attr_alias(Fr, at_, x.value) == "response":
-            return True
-        if isinstance(x, ast.Call) and isinstance(x.func, ast.Name) and x.func.id == "getattr" and len(x.args) >= 2 and _self_attr_alias(Fr, at_, x.args[0]) == "response" and astq.const_str(x.args[1]) == "close":
-            return True
-        if isinstance(x, ast.Name) and depth < 4:
-            bs = bindings(Fr, at_, x)
-            return bool(bs) and all(b.kind == "value" and b.path == () and b.node is not None and body_close(b.node, b.expr, depth + 1) for b in bs)
-        return False
+        return _body_close_ref(Fr, at_, x, depth)
 
     bc = []
     for c in astq.calls(Fr.fi.node, nested=False):
@@ -2611,6 +2620,126 @@ def _is_insertion_slice(sl: ast.AST, ident: str) -> bool:
     return bool(is_len and hi is None)  # xs[len(xs):]
 
 
+# -- "the wrapped iterable's close runs at most once" -----------------------
+#
+# A *closer* of a function is a CFG node whose execution invokes the close of self.response: a direct call of it
+# (`self.response.close()`, through getattr or a local holding it), a call of a package helper / method of self that has a
+# closer itself (Response.close is the obvious one), or a loop that calls what a generator helper yields when that yields
+# the body's close.  Two closers on one path (or one closer in a cycle) close the body twice unless self.response is
+# replaced in between.
+
+
+def _rebinds_body(F: Fn) -> list[t.Any]:
+    out = []
+    for n in F.cfg.nodes:
+        tgts = n.ast.targets if isinstance(n.ast, ast.Assign) else [n.ast.target] if isinstance(n.ast, (ast.AnnAssign, ast.AugAssign)) else []
+        if any(is_self_attr(y, "response") for x in tgts for y in ([x] if not isinstance(x, (ast.Tuple, ast.List)) else x.elts)):
+            out.append(n)
+    return out
+
+
+def _closer_nodes(F: Fn, depth: int = 0, _seen: frozenset[str] = frozenset()) -> list[tuple[t.Any, str]]:
+    """(CFG node, description) for every closer of F."""
+    out: list[tuple[t.Any, str]] = []
+    seen = _seen | {F.fi.fq}
+    for c in astq.calls(F.fi.node, nested=False):
+        cn = F.cfg.node_of(c)
+        if cn is None:
+            continue
+        if not c.args and not c.keywords and _body_close_ref(F, cn, c.func):
+            out.append((cn, f"`{norm(c)}`"))
+            continue
+        if depth < 3:
+            callee = callee_of(F, c)
+            if callee is not None and callee.fq not in seen and not any(isinstance(x, (ast.Yield, ast.YieldFrom)) for x in walk_no_nested(callee.node)):
+                Fq = fn_of(F.repo, callee)
+                # only closers from which the helper can still return normally: a helper that closes and then raises hands
+                # nothing on to the caller's later code
+                sub = [(n_, tx) for n_, tx in _closer_nodes(Fq, depth + 1, seen) if Fq.cfg.exit.id in Fq.cfg.reach(n_)]
+                if sub:
+                    _saw(callee)
+                    out.append((cn, f"`{norm(c)}` ({callee.qualname} -> {sub[0][1]})"))
+    for n, G in _generator_consumers(F):
+        ys = []
+        for y in walk_no_nested(G.fi.node):
+            if isinstance(y, ast.Yield) and y.value is not None:
+                yn = G.cfg.node_of(y)
+                if yn is not None and _body_close_ref(G, yn, y.value):
+                    ys.append((yn, f"`yield {norm(y.value)}`"))
+        if ys:
+            # the loop calls each yielded function once: the loop node stands for one close per such yield that one path
+            # of the generator passes
+            twice = _closed_twice(G, ys)
+            out.append((n, f"`{n.text()}` ({G.fi.qualname}: {ys[0][1]}{', twice on one path' if twice else ''})"))
+            if twice:
+                out.append((n, f"`{n.text()}` (second yield of the body's close in {G.fi.qualname})"))
+    return out
+
+
+def _closed_twice(F: Fn, closers: list[tuple[t.Any, str]]) -> tuple[str, str] | None:
+    """a pair of closers (possibly the same one, in a cycle) that one path passes without self.response being replaced."""
+    reb = _rebinds_body(F)
+    for i, (a, ta) in enumerate(closers):
+        # a `for f in <generator>: f()` loop head is passed once per item: only what follows the loop counts as "later"
+        nxt = [s_ for s_, lab in a.succs if not (a.kind == "loop" and lab == "T")]
+        later = F.cfg.reach([s_ for s_ in nxt if not any(s_ is r for r in reb)], avoid_nodes=reb + ([a] if a.kind == "loop" else []))
+        for j, (b, tb) in enumerate(closers):
+            if (b.id in later or (b is a and i != j)) and not any(b is r for r in reb):
+                return ta, tb
+    return None
+
+
+def _any_alias_of_body(F: Fn, at, e: ast.AST | None, depth: int = 0) -> bool:
+    """some value e can stand for is self.response itself (the same object)."""
+    if e is None or depth > 4:
+        return False
+    if isinstance(e, ast.IfExp):
+        return _any_alias_of_body(F, at, e.body, depth + 1) or _any_alias_of_body(F, at, e.orelse, depth + 1)
+    if isinstance(e, ast.NamedExpr):
+        return _any_alias_of_body(F, at, e.value, depth + 1)
+    if isinstance(e, ast.Call) and norm(e.func).endswith("cast") and len(e.args) == 2:
+        return _any_alias_of_body(F, at, e.args[1], depth + 1)
+    if is_self_attr(e, "response"):
+        return True
+    if isinstance(e, ast.Name):
+        return any(b.kind == "value" and b.path == () and b.node is not None and _any_alias_of_body(F, b.node, b.expr, depth + 1) for b in bindings(F, at, e))
+    return False
+
+
+def _carried_closes(F: Fn, at, e: ast.AST | None, depth: int = 0) -> int:
+    """how many entries of the callbacks value e (a single callable or a display / concatenation / copy of callables) close
+    the body when called: self.close and the body's own close each count once.  Shapes that are not displays count what
+    they can be shown to hold (0 or 1), so the count is a lower bound."""
+    if e is None or depth > 6:
+        return 0
+    if isinstance(e, ast.NamedExpr):
+        return _carried_closes(F, at, e.value, depth + 1)
+    if is_self_attr(e, "close") or (not isinstance(e, ast.Name) and _body_close_ref(F, at, e)):
+        return 1
+    if isinstance(e, ast.Starred):
+        return _carried_closes(F, at, e.value, depth + 1)
+    if isinstance(e, (ast.List, ast.Tuple, ast.Set)):
+        return sum(_carried_closes(F, at, x, depth + 1) for x in e.elts)
+    if isinstance(e, ast.BinOp) and isinstance(e.op, ast.Add):
+        return _carried_closes(F, at, e.left, depth + 1) + _carried_closes(F, at, e.right, depth + 1)
+    if isinstance(e, ast.IfExp):
+        return max(_carried_closes(F, at, e.body, depth + 1), _carried_closes(F, at, e.orelse, depth + 1))
+    if isinstance(e, ast.Call) and isinstance(e.func, ast.Name) and e.func.id in ("list", "tuple", "iter") and len(e.args) == 1 and not e.keywords:
+        return _carried_closes(F, at, e.args[0], depth + 1)
+    if isinstance(e, ast.Call) and norm(e.func).endswith("cast") and len(e.args) == 2:
+        return _carried_closes(F, at, e.args[1], depth + 1)
+    if isinstance(e, ast.Name):
+        best = 0
+        for b in bindings(F, at, e):
+            if b.kind == "value" and b.path == () and b.node is not None:
+                best = max(best, _carried_closes(F, b.node, b.expr, depth + 1))
+        if best == 0:
+            held = _list_has(F, at, e, lambda F_, at_, x: is_self_attr(x, "close") or (not isinstance(x, ast.Name) and _body_close_ref(F_, at_, x)), lambda F_, at_, x: None)
+            best = 1 if held[0] else 0
+        return best
+    return 0
+
+
 def _r56(ctx: Ctx) -> None:
     repo = ctx.repo
     resp = _resp(ctx)
@@ -2641,6 +2770,31 @@ def _r56(ctx: Ctx) -> None:
             cons = f"raw return {what} under direct_passthrough" if pt and is_self_attr(v, "response") else f"raw return {what} under {g}"
             ctx.ob("R5.6", f"get_app_iter: `{norm(r)}` chains Response.close", False,
                    f"the server gets `{what}` itself{' (direct_passthrough)' if pt else ''}: closing it never reaches Response.close, so callbacks registered with call_on_close do not run (guards {g})", gai, r, cons)
+
+    # at most once: what the returned iterator carries (self.close among the callbacks, the iterable's own close when the
+    # iterable is self.response itself) plus what get_app_iter has already called on the way to the return
+    direct = _closer_nodes(F)
+    reb = _rebinds_body(F)
+    n_wrapped = 0
+    for r in rets:
+        rn = F.node(r)
+        for v, vn in _expansions(F, rn, r.value):
+            ca = _closing_iterator_arg(F, v)
+            if ca is None:
+                continue
+            n_wrapped += 1
+            it_, cb = ca
+            carried = _carried_closes(F, vn, cb)
+            own = 1 if _any_alias_of_body(F, vn, it_) else 0
+            before = [txt for d, txt in direct if d is vn or d is rn or (not any(d is x for x in reb) and (vn.id in F.cfg.reach([s_ for s_, _ in d.succs if not any(s_ is x for x in reb)], avoid_nodes=reb)))]
+            total = carried + own + len(before)
+            ctx.ob("R5.6", f"get_app_iter: `{norm(r)}` closes the wrapped iterable at most once", total <= 1,
+                   f"closes of self.response on a path that ends in `{norm(v)}`: {carried} carried by the callbacks `{norm(cb) if cb is not None else None}` (self.close / the body's close)"
+                   f" + {own} for the wrapped iterable's own close, which ClosingIterator adds (`{norm(it_) if it_ is not None else None}` can be self.response itself: {bool(own)})"
+                   f" + {len(before)} called by get_app_iter before the return {before} = {total} (Response.close and ClosingIterator.close each run what they hold once)",
+                   gai, r, f"closes body at most once {norm(v)}")
+    if n_wrapped:
+        ctx.floor("R5.6", "ClosingIterator returns of get_app_iter judged for at-most-once", n_wrapped, 1)
 
     ci = repo.cls("wsgi.ClosingIterator")
     close = method(repo, ci, "close")
@@ -2772,6 +2926,12 @@ def _r56(ctx: Ctx) -> None:
     tried2 = [(Fx, *_closes_body(Fx)) for Fx, _ in parts + gparts]  # type: ignore[operator]
     best2 = next((x for x in tried2 if x[1]), next((x for x in tried2 if x[3] is not None), tried2[0]))
     ctx.ob("R5.6", "Response.close closes the body iterable", best2[1], best2[2] + ("" if best2[0] is Fr else f" (in {best2[0].fi.qualname}, which close() always calls)"), rc, best2[3] if best2[0] is Fr and best2[3] is not None else rc.node, "response close closes body")
+
+    rclosers = _closer_nodes(Fr)
+    twice = _closed_twice(Fr, rclosers)
+    ctx.ob("R5.6", "Response.close closes the body iterable at most once", twice is None,
+           f"{len(rclosers)} place(s) in close() (helpers followed) that invoke the close of self.response: {[x for _, x in rclosers]}; two of them (or one in a cycle) on one path without self.response being replaced: {list(twice) if twice else None}",
+           rc, rc.node, "response close closes body once")
 
     ms = method(repo, resp, "make_sequence")
     Fm = fn_of(repo, ms)
